@@ -1,4 +1,7 @@
+#[cfg(not(kani))]
 use std::collections::HashMap;
+#[cfg(kani)]
+use crate::verif_kani::shim::HashMap;
 
 use itertools::Itertools;
 
